@@ -453,6 +453,19 @@ func runHistory(r *rig, tag string, c *Case) {
 		}
 		time.Sleep(20 * time.Millisecond)
 	}
+	// sockets are not part of the criterion above; a connection the HTTP server answered with 404
+	// (or one whose close is still on its way) needs a moment to disappear: poll briefly until the
+	// count is no higher than what the property's worst case allows (live + refused after upgrade)
+	refusedHeld := 0
+	for i, k := range c.Conns {
+		if conns[i] != nil && !k.Accepted && k.Outcome != "join" {
+			refusedHeld++
+		}
+	}
+	for w := 0; w < 30 && (m.socks-clientFds)-base.socks > liveN+refusedHeld && time.Now().Before(bound); w++ {
+		time.Sleep(10 * time.Millisecond)
+		m = r.measure()
+	}
 	c.SettleMs = int(time.Since(t0) / time.Millisecond)
 	// topics beyond the baseline, interned back to the history's numbers
 	baseT := map[string]int{}
